@@ -1211,3 +1211,233 @@ Proof.
   - inversion H2; subst st'. cbn [set_roles set_members set_buffer set_ids b_ids].
     rewrite aget_aset_same. reflexivity.
 Qed.
+
+(** * 5. Axes: the entities of the expanded situation are the concatenation of the copies *)
+
+Lemma repeat_list_concat {A} (l : list A) n : repeat_list l n = List.concat (repeat l n).
+Proof. induction n as [|n IH]; cbn [repeat_list repeat List.concat]; [reflexivity|]. rewrite IH. reflexivity. Qed.
+
+Lemma repeat_list_length {A} (l : list A) n : List.length (repeat_list l n) = (n * List.length l)%nat.
+Proof. induction n as [|n IH]; cbn [repeat_list]; [reflexivity|]. rewrite app_length, IH. lia. Qed.
+
+(* copy number k (from 0) of the memberships points into the k-th block of [cnt] groups *)
+Lemma tile_members_concat m cnt cells : forall k,
+  tile_members m cnt k cells
+  = List.concat (map (fun c => map (fun i => i + Z.of_nat c * cnt) m) (seq k cells)).
+Proof.
+  induction cells as [|cells IH]; intros k; cbn [tile_members seq map List.concat]; [reflexivity|].
+  rewrite IH. reflexivity.
+Qed.
+
+Lemma suffix_ids_spec l i id :
+  nth_error l i = Some id ->
+  nth_error (suffix_ids l) i = Some (append id (string_of_nat i)).
+Proof.
+  unfold suffix_ids. intros H.
+  rewrite nth_error_map.
+  assert (nth_error (combine l (seq 0 (List.length l))) i = Some (id, i)) as ->; [|reflexivity].
+  assert (forall (l : list string) k i id, nth_error l i = Some id ->
+            nth_error (combine l (seq k (List.length l))) i = Some (id, (k + i)%nat)) as G.
+  { clear. induction l as [|a l IH]; intros k i id H; [destruct i; discriminate|].
+    destruct i; cbn [List.length seq combine nth_error] in *.
+    - inversion H; subst. rewrite Nat.add_0_r. reflexivity.
+    - rewrite (IH (S k) i id H). f_equal. f_equal. lia. }
+  apply (G l 0%nat i id H).
+Qed.
+
+(* the n-th element of the c-th copy *)
+Lemma nth_error_repeat_list {A} (l : list A) cells c i :
+  (c < cells)%nat -> (i < List.length l)%nat ->
+  nth_error (repeat_list l cells) (c * List.length l + i) = nth_error l i.
+Proof.
+  revert c. induction cells as [|cells IH]; intros c Hc Hi; [lia|]. cbn [repeat_list].
+  destruct c.
+  - cbn [Nat.mul Nat.add]. apply nth_error_app1. assumption.
+  - rewrite nth_error_app2 by (cbn [Nat.mul]; lia).
+    replace (S c * List.length l + i - List.length l)%nat with (c * List.length l + i)%nat
+      by (cbn [Nat.mul]; lia).
+    apply IH; [lia|assumption].
+Qed.
+
+(** * 6. Document level: the persons of the built simulation *)
+
+Lemma add_group_entity_other_ids x s st pids e j st' q :
+  add_group_entity x s st pids e j = Ok st' -> q <> e_plural e ->
+  aget q (b_ids st') = aget q (b_ids st) /\ b_ax_ids st' = b_ax_ids st.
+Proof.
+  unfold add_group_entity. destruct j; try discriminate. intros H N.
+  apply bind_ok in H. destruct H as ([[st1 todo] mr] & H1 & H2).
+  pose proof (add_group_instances_ids _ _ _ _ _ _ _ _ _ _ _ _ H1) as [Hi Ha].
+  cbn [set_ids b_ids b_ax_ids] in Hi, Ha.
+  destruct todo; inversion H2; subst st';
+    cbn [set_roles set_members set_buffer set_ids b_ids b_ax_ids]; rewrite ?Hi, ?Ha;
+    rewrite ?aget_aset_other by assumption; split; reflexivity.
+Qed.
+
+Lemma add_groups_other_ids x s pids params ax gs q : forall st st',
+  add_groups x s st pids params ax gs = Ok st' -> ~ In q (map e_plural gs) ->
+  aget q (b_ids st') = aget q (b_ids st) /\ b_ax_ids st' = b_ax_ids st.
+Proof.
+  induction gs as [|e gs IH]; intros st st'; cbn [add_groups map In].
+  - intros H _. inversion H; subst. split; reflexivity.
+  - intros H N. apply bind_ok in H. destruct H as (st1 & H1 & H2).
+    assert (q <> e_plural e) as Nq by (intros ->; apply N; left; reflexivity).
+    apply IH in H2; [|intros I; apply N; right; assumption].
+    destruct H2 as [B1 B2].
+    assert (aget q (b_ids st1) = aget q (b_ids st) /\ b_ax_ids st1 = b_ax_ids st) as [A1 A2].
+    { destruct (aget (e_plural e) params) as [j|].
+      - destruct j; try (eapply add_group_entity_other_ids; eassumption);
+          destruct ax; try discriminate; inversion H1; subst st1;
+          unfold add_default_group_entity; cbn [set_roles set_members set_ids b_ids b_ax_ids];
+          rewrite aget_aset_other by assumption; split; reflexivity.
+      - destruct ax; try discriminate; inversion H1; subst st1;
+          unfold add_default_group_entity; cbn [set_roles set_members set_ids b_ids b_ax_ids];
+          rewrite aget_aset_other by assumption; split; reflexivity. }
+    split; congruence.
+Qed.
+
+(** For every document without axes that builds: the first population is the persons', with
+    one person per declared id, in declaration order. *)
+Lemma build_persons_ids x s doc sim persons :
+  ~ In (e_plural (s_person s)) (map e_plural (s_groups s)) ->
+  aget "axes"%string doc = None ->
+  aget (e_plural (s_person s)) (aremove "axes" doc) = Some (JObj persons) ->
+  build_from_entities x s doc = Ok sim ->
+  exists pop rest, sim = pop :: rest /\ p_entity pop = e_key (s_person s)
+                   /\ p_ids pop = map fst persons.
+Proof.
+  intros Hwf Hax Hp H. unfold build_from_entities in H. rewrite Hp, Hax in H.
+  destruct (existsb _ (aremove "axes" doc)); [discriminate|].
+  destruct persons as [|i instances]; [discriminate|].
+  apply bind_ok in H. destruct H as (st1 & H1 & H).
+  apply bind_ok in H. destruct H as (st2 & H2 & H).
+  cbn [bind] in H. unfold entities in H. cbn [mapM] in H.
+  destruct (finalize_population s st2 (s_person s)) as [pop|] eqn:F; [|discriminate].
+  destruct (mapM (finalize_population s st2) (s_groups s)) as [rest|]; [|discriminate].
+  inversion H; subst sim. exists pop, rest. split; [reflexivity|].
+  unfold finalize_population in F. apply bind_ok in F. destruct F as (hs & _ & F).
+  inversion F; subst pop. cbn [p_entity p_ids]. split; [reflexivity|].
+  pose proof (add_person_entity_ids _ _ _ _ H1) as I1.
+  apply add_groups_other_ids with (q := e_plural (s_person s)) in H2; [|assumption].
+  destruct H2 as [A1 A2]. unfold get_ids, ids_of in *. rewrite A2, A1. exact I1.
+Qed.
+
+(** * Statements as cited by props/C12.v *)
+
+Lemma flush_order_full (A : Type) (entries : list (period * A)) :
+  Permutation (sort_periods entries) entries /\
+  StronglySorted (fun a b => ~ shorter (fst b) (fst a)) (sort_periods entries) /\
+  (forall l1 a l2 b l3, sort_periods entries = l1 ++ a :: l2 ++ b :: l3 -> ~ shorter (fst b) (fst a)).
+Proof.
+  split; [apply sort_periods_perm|]. split; [apply sort_periods_sorted|]. apply flush_order.
+Qed.
+
+Lemma duplicate_membership_full :
+  (forall pids rj r l pid todo,
+     In (r, JArr l) rj -> In (JStr pid) l -> ~ In pid todo ->
+     allocate_roles pids todo rj = Err ESituation) /\
+  (forall pids l todo todo',
+     allocate_list pids todo l = Ok todo' ->
+     (forall p, In p todo' -> In p todo) /\ (forall p, In (JStr p) l -> ~ In p todo')) /\
+  (forall pids l1 l2 pid todo,
+     In (JStr pid) l1 -> allocate_list pids todo (l1 ++ JStr pid :: l2) = Err ESituation).
+Proof.
+  split; [|split].
+  - intros. eapply allocate_roles_not_to_allocate; eassumption.
+  - exact allocate_list_todo.
+  - exact allocate_list_duplicate.
+Qed.
+
+Lemma unknown_person_full pids rj r l pid todo :
+  In (r, JArr l) rj -> In (JStr pid) l -> ~ In pid pids ->
+  allocate_roles pids todo rj = Err ESituation.
+Proof. intros. eapply allocate_roles_unknown_person; eassumption. Qed.
+
+Lemma too_many_full pids gidx rj r l mx mr :
+  In (r, JArr l) rj -> r_max r = Some mx -> mx < Z.of_nat (List.length (person_ids_of l)) ->
+  assign_roles pids gidx rj mr = Err ESituation.
+Proof. intros. eapply assign_roles_too_many; eassumption. Qed.
+
+Lemma mismatched_period_full :
+  (forall v n h P a,
+     eternal v = false ->
+     (p_unit P = Eternity
+      \/ (v_rule v = RNone /\ List.length a = n /\ (p_unit P <> v_def v \/ 1 < p_size P))) ->
+     holder_set_input v n h P a = Err EMismatch) /\
+  (forall s e count pre vn entries post hs hs' v,
+     flush_buffer s e count pre hs = Ok hs' ->
+     find_var vn (s_vars s) = Some v -> v_entity v = e_key e ->
+     flush_periods v count (match aget vn hs' with Some h => h | None => [] end) (sort_periods entries)
+     = Err EMismatch ->
+     flush_buffer s e count (pre ++ (vn, entries) :: post) hs = Err ESituation).
+Proof. split; [exact holder_set_input_mismatch|exact flush_buffer_mismatch]. Qed.
+
+Lemma build_spec_partial_full :
+  (forall x s doc sim persons,
+     ~ In (e_plural (s_person s)) (map e_plural (s_groups s)) ->
+     aget "axes"%string doc = None ->
+     aget (e_plural (s_person s)) (aremove "axes" doc) = Some (JObj persons) ->
+     build_from_entities x s doc = Ok sim ->
+     exists pop rest, sim = pop :: rest /\ p_entity pop = e_key (s_person s)
+                      /\ p_ids pop = map fst persons) /\
+  (forall x s st pids e instances st',
+     add_group_entity x s st pids e (JObj instances) = Ok st' ->
+     exists st1 todo mr,
+       add_group_instances x s e pids (map fst instances) instances
+         (set_ids st (e_plural e) (map fst instances)) pids
+         (repeat 0 (List.length pids), repeat EmptyString (List.length pids)) = Ok (st1, todo, mr) /\
+       aget (e_plural e) (b_ids st')
+       = Some (map fst instances ++ match todo with [] => [] | _ => set_order x todo end)) /\
+  (forall x st e v idx t value st',
+     value <> JNull ->
+     add_variable_value x st e v idx t value = Ok st' ->
+     exists p c old,
+       canon_key (tok x t) = Ok p /\ check_set_value x v value = Ok c /\
+       old = match buf_get (b_buffer st) (v_name v) p with
+             | Some a => a
+             | None => default_array v (get_count st (e_plural e))
+             end /\
+       (idx < List.length old)%nat /\
+       buf_get (b_buffer st') (v_name v) p = Some (list_set idx c old) /\
+       (forall vn' p', (vn', p') <> (v_name v, p) ->
+                       buf_get (b_buffer st') vn' p' = buf_get (b_buffer st) vn' p') /\
+       b_ids st' = b_ids st /\ b_members st' = b_members st /\ b_roles st' = b_roles st /\
+       b_ax_ids st' = b_ax_ids st).
+Proof.
+  split; [exact build_persons_ids|]. split; [exact add_group_entity_ids|].
+  exact add_variable_value_spec.
+Qed.
+
+Lemma own_groups_full :
+  (forall pids first own g mr,
+     NoDup own ->
+     List.length (fst mr) = List.length pids -> List.length (snd mr) = List.length pids ->
+     let mr' := allocate_own pids g first own mr in
+     List.length (fst mr') = List.length pids /\ List.length (snd mr') = List.length pids /\
+     (forall j pid k, nth_error own j = Some pid -> index_of pid pids = Some k ->
+        nth_error (fst mr') k = Some (Z.of_nat (g + j)) /\ nth_error (snd mr') k = Some first) /\
+     (forall k, (forall pid, In pid own -> index_of pid pids <> Some k) ->
+        nth_error (fst mr') k = nth_error (fst mr) k /\ nth_error (snd mr') k = nth_error (snd mr) k)) /\
+  (forall v n a, (List.length a <= n)%nat ->
+     List.length (pad_array v n a) = n /\
+     (forall i, (i < List.length a)%nat -> nth_error (pad_array v n a) i = nth_error a i) /\
+     (forall i, (List.length a <= i < n)%nat -> nth_error (pad_array v n a) i = Some (v_default v))).
+Proof. split; [exact allocate_own_spec|exact pad_array_spec]. Qed.
+
+Lemma axes_entities_full :
+  (forall (l : list string) cells c i id,
+     (c < cells)%nat -> nth_error l i = Some id ->
+     nth_error (suffix_ids (repeat_list l cells)) (c * List.length l + i)
+     = Some (append id (string_of_nat (c * List.length l + i)))) /\
+  (forall m cnt cells,
+     tile_members m cnt 0 cells
+     = List.concat (map (fun c => map (fun i => i + Z.of_nat c * cnt) m) (seq 0 cells))) /\
+  (forall (A : Type) (l : list A) n, repeat_list l n = List.concat (repeat l n)).
+Proof.
+  split; [|split].
+  - intros l cells c i id Hc Hi. apply suffix_ids_spec.
+    rewrite nth_error_repeat_list; [assumption|assumption|].
+    apply nth_error_Some. congruence.
+  - intros. apply tile_members_concat.
+  - intros. apply repeat_list_concat.
+Qed.
